@@ -71,6 +71,13 @@ func (c ChildResult) CrashClass() string {
 // child mode. The child's record stream is merged into r. extraEnv entries are
 // "K=V". The watchdog is wall-clock and generous; its firing is inconclusive.
 func (r *Rec) RunChild(testName, mode, arg string, extraEnv []string, watchdog time.Duration) ChildResult {
+	return r.RunChildBin(os.Args[0], testName, mode, arg, extraEnv, watchdog)
+}
+
+// RunChildBin is RunChild for another test binary (built by the driver from the
+// check's "also_tests" into $VERIF_BIN): a white-box part of a check that has to live
+// in a zoekt package of its own. The child uses the same record protocol.
+func (r *Rec) RunChildBin(bin, testName, mode, arg string, extraEnv []string, watchdog time.Duration) ChildResult {
 	r.mu.Lock()
 	r.counters["children"]++
 	n := r.counters["children"]
@@ -83,7 +90,7 @@ func (r *Rec) RunChild(testName, mode, arg string, extraEnv []string, watchdog t
 	casep := base + ".case"
 	ctx, cancel := context.WithTimeout(context.Background(), watchdog)
 	defer cancel()
-	cmd := exec.CommandContext(ctx, os.Args[0], "-test.run", "^"+testName+"$", "-test.timeout", "0")
+	cmd := exec.CommandContext(ctx, bin, "-test.run", "^"+testName+"$", "-test.timeout", "0")
 	cmd.Env = append(os.Environ(),
 		"VERIF_CHILD="+mode, "VERIF_CHILD_ARG="+arg, "VERIF_OUT="+outp, "VERIF_CASELOG="+casep,
 		"VERIF_WORK="+filepath.Join(r.Work, fmt.Sprintf("child-%s-%d", mode, n)),
